@@ -75,7 +75,11 @@ def deep_eq(a, b):
 
 
 def cell_eq(a, b):
-    return deep_eq(norm(a), norm(b))
+    a, b = norm(a), norm(b)
+    if isinstance(a, float) and isinstance(b, float) and a == 0 and b == 0:
+        import math
+        return math.copysign(1, a) == math.copysign(1, b)   # cells of a frame: the sign of a zero is part of the value
+    return deep_eq(a, b)
 
 
 def expected_columns(case):
